@@ -590,6 +590,11 @@ Q(id='C15.msf_header_fit', props=['C15', 'C05'], cls='B', harness='c15_msf_fit.c
            'fprintf no-op, fopen/fclose/time/localtime_r/strftime trivial', 'qsort insertion-sort stub', 'realloc: fresh block, contents carried over only for blocks <= 48 bytes (over-approximation for line buffers)',
            'R3 capacity shrink (line table 1024 -> 24 lines, record growth 512 -> 2)'],
   assumptions=[A_NOFAIL, A_WRAP, 'bounded in the row count (2 rows of 2 columns); complete in the length of the description / Name: text up to the case split fits / exactly one byte short / longer (5 quick, 9 thorough combinations, both molecule types)'])
+Q(id='C15.GCGchecksum', props=['C15'], cls='P', harness='c15_gcg.c', entry='h_c15_gcg',
+  mode='dfcc', enforce=['GCGchecksum'], loop_contracts=True, loops_files=['msa_misc.gcg.loops'], unwind=4, timeout=600, replayable=False,
+  funcs=['GCGchecksum'], trusted=[TRUST_MSG, 'toupper: CBMC C-locale model (-D__NO_CTYPE)'],
+  assumptions=[A_NOFAIL, 'row length 0..100000 (KV_MAXROW; object size, not the loop, bounds it)',
+               'data invariant: row bytes of a finalised alignment are ASCII (>= 0), instantiated at the read site by an injected ghost assume'])
 PROPS['C15'] = dict(
     level='other',
     level_text=('the three writers are run on symbolic finalised alignments with stdio captured; the captured bytes are checked against the format rules of the property (60-column wrapping, header lines, blocks with every sequence once, in order) '
